@@ -55,9 +55,13 @@ func buildVC(o *Obligation, assumptions []*Term, modelVars []*Term) string {
 	order, _ := collect(asserts)
 	sax := stringAxioms(order)
 	asserts = append(sax, asserts...)
+	var named map[string]*Term
+	if !o.Vacuity {
+		named = extraModelTerms
+	}
 	var sb strings.Builder
 	sb.WriteString("(set-option :produce-models true)\n(set-logic ALL)\n")
-	sb.WriteString(SMTScript(asserts, nil))
+	sb.WriteString(SMTScript(asserts, nil, named))
 	sb.WriteString("(check-sat)\n")
 	// model values for the scalar inputs that occur
 	order2, _ := collect(asserts)
@@ -66,43 +70,23 @@ func buildVC(o *Obligation, assumptions []*Term, modelVars []*Term) string {
 		present[t.id] = true
 	}
 	var mv []string
-	var defs []string
 	for _, v := range modelVars {
 		if present[v.id] && (v.Sort.IsBV() || v.Sort == BoolSort) {
 			mv = append(mv, "|"+v.Name+"|")
 		}
 	}
-	if !o.Vacuity {
-		var names []string
-		for n := range extraModelTerms {
+	var names []string
+	for n, t := range named {
+		if !t.bound && (t.Sort.IsBV() || t.Sort == BoolSort) {
 			names = append(names, n)
 		}
-		sort.Strings(names)
-		for _, n := range names {
-			t := extraModelTerms[n]
-			ok := true
-			tl, _ := collect([]*Term{t})
-			for _, x := range tl {
-				if x.Op == "var" && !present[x.id] {
-					ok = false
-				}
-			}
-			if !ok {
-				continue
-			}
-			var tb strings.Builder
-			printTerm(&tb, t, nil, 0)
-			defs = append(defs, fmt.Sprintf("(define-fun |%s| () %s %s)", n, t.Sort.str, tb.String()))
-			mv = append(mv, "|"+n+"|")
-		}
+	}
+	sort.Strings(names)
+	for _, n := range names {
+		mv = append(mv, "|"+n+"|")
 	}
 	if len(mv) > 0 {
 		sb.WriteString("(get-value (" + strings.Join(mv, " ") + "))\n")
-	}
-	if len(defs) > 0 {
-		out := sb.String()
-		i := strings.LastIndex(out, "(check-sat)")
-		return out[:i] + strings.Join(defs, "\n") + "\n" + out[i:]
 	}
 	return sb.String()
 }
